@@ -1,8 +1,9 @@
 (* Merge.v — mirror of src/validation/rules/overlapping_fields_can_be_merged.rs.
    All twelve functions of the algorithm, with the rule's state: the fragment-pair memo
    (PairSet), the per-selection-set list of visited fragment names (shared by every nested
-   comparison, as in the code) and the stack of field pairs whose sub-selections are being
-   compared (the recursion guard).  Field nodes are identified by their source position (the
+   comparison, as in the code) and the set of field pairs (with the mutually-exclusive flag)
+   whose sub-selections have already been compared for the current selection set (the memo
+   that bounds the work).  Field nodes are identified by their source position (the
    code compares node addresses; the parser gives every node its own position).
    Recursion through fragments and sub-selections is on fuel; None = out of fuel. *)
 From GT Require Export Rules.
@@ -76,7 +77,9 @@ Definition ps_contains (m : pairset) (a b : name) (mutex : bool) : bool :=
 Definition ps_insert (m : pairset) (a b : name) (mutex : bool) : pairset :=
   as_set pair_eqb (b, a) mutex (as_set pair_eqb (a, b) mutex m).
 
-Record mstate := mkMS { ms_compared : pairset; ms_visited : list name; ms_being : list (pos * pos) }.
+(* ms_fields: the pairs of fields (with the mutually-exclusive flag) already compared for the
+   current selection set *)
+Record mstate := mkMS { ms_compared : pairset; ms_visited : list name; ms_being : list (pos * pos * bool) }.
 
 Definition conflict := (list pos * list pos)%type.
 
@@ -132,15 +135,16 @@ Fixpoint mrun (fuel : nat) (s : sdocument) (d : document) (c : mcall) (st : msta
             if match t1, t2 with Some a, Some b => is_type_conflict s a b | _, _ => false end
             then Some (st, [simple])
             else if negb (is_nil (sel_sels f1)) && negb (is_nil (sel_sels f2)) then
-              if existsb (fun pq : pos * pos => pos_eqb (fst pq) (sel_pos f1) && pos_eqb (snd pq) (sel_pos f2)) (ms_being st)
+              if existsb (fun pq : pos * pos * bool =>
+                            pos_eqb (fst (fst pq)) (sel_pos f1) && pos_eqb (snd (fst pq)) (sel_pos f2) &&
+                            Bool.eqb (snd pq) mutex) (ms_being st)
               then Some (st, [])
               else
-                let st1 := mkMS (ms_compared st) (ms_visited st) (ms_being st ++ [(sel_pos f1, sel_pos f2)]) in
+                let st1 := mkMS (ms_compared st) (ms_visited st) (ms_being st ++ [(sel_pos f1, sel_pos f2, mutex)]) in
                 match run (CBetweenSub mutex (opt_map inner_type t1) (sel_sels f1) (opt_map inner_type t2) (sel_sels f2)) st1 with
                 | Some (st2, cs) =>
-                    let st3 := mkMS (ms_compared st2) (ms_visited st2) (removelast (ms_being st2)) in
-                    if is_nil cs then Some (st3, [])
-                    else Some (st3, [(sel_pos f1 :: flat_map fst cs, sel_pos f1 :: flat_map fst cs)])
+                    if is_nil cs then Some (st2, [])
+                    else Some (st2, [(sel_pos f1 :: flat_map fst cs, sel_pos f1 :: flat_map fst cs)])
                 | None => None
                 end
             else Some (st, [])
